@@ -54,7 +54,7 @@ CHECKS = {
                 text="Every transformation of the menu (key maps incl. 0-based / sparse / all permutations, all dict orders, atom permutations and fresh names, signature reversal / extension, seven equivalence-preserving rewrites of base or query, selected pairs) applied to structure representatives over two and three atoms x all operator/back-end/mode combinations; the answer vector must equal the canonical presentation's.",
                 note="Non-negative integer keys only. Compares the implementation with itself."),
     "C13": dict(cat="model_checking", tech="stateless exploration of all operation sequences up to a depth bound on real manager objects + explicit-state BFS with canonicalised epistemic state + exhaustive schedule enumeration over a controlled multiprocessing double (real forked workers)", ref="DESIGN.md 4/C13",
-                text="All sequences of depth <=2 (thorough 3) over 20 batches (duplicate query texts, keys colliding with batch positions, negative key) x sequential / parallel, per (base, operator, back-end, mode); merged BFS over the canonical epistemic state until closure with the canonical form validated by un-merged depth-3 runs; all 4^k worker-delivery schedules for k=1..3 workers (done / late / alive-lost / alive-wrote); oracle per call: one row per query, order, own key, own text, answer as alone on a fresh manager (or flagged timed out), no process left un-joined; plus calls through the real multiprocessing module checking active_children().",
+                text="All sequences of depth <=2 (thorough 3) over 30 batches (duplicate query texts, keys colliding with batch positions, a negative key, a deep-nested pair, a vacuous query, a re-used key) x sequential / parallel, per (base, operator, back-end, mode); merged BFS over the canonical epistemic state until closure with the canonical form validated by un-merged depth-3 runs; all worker-delivery schedules for k=1..3 workers (done / done-at-join / late / alive-lost / alive-wrote per worker and every completion order of the early finishers); oracle per call: one row per query, order, own key, own text, answer as alone on a fresh manager (or flagged timed out), no process left un-joined; plus calls through the real multiprocessing module checking active_children().",
                 note="Worker completion is modelled at call granularity (visibility of a worker's writes relative to join/is_alive/terminate); OS scheduling inside a worker is not modelled."),
     "C14": dict(cat="fault_enumeration", tech="deviation-bounded exhaustive enumeration of environment answers (deadline observations, solver verdicts, clock reads) at every observation point of real executions, incl. points inside forked workers", ref="DESIGN.md 4/C14",
                 text="For every (base, operator, back-end, mode, budget configuration in {0,T}^3, sequential/parallel): the 0-deviation execution, then every single deviation at every observation point (thorough: every pair): Deadline observed as expired (sticky), Optimize.check() -> unknown (no model / feasible non-optimal model / forever), preprocessing clock +T/+2T. Each execution is a 3-query call plus a later call on the same manager; oracle: no exception escapes, every row flagged-with-False or equal to the run without budgets.",
